@@ -56,7 +56,13 @@ func (p *Program) constantsAppended(fn *ssa.Function, depth int) []string {
 		for _, b := range fn.Blocks {
 			for _, in := range b.Instrs {
 				cl, ok := in.(*ssa.Call)
-				if !ok || !cl.Call.IsInvoke() || cl.Call.Method.Name() != "AppendJSON" {
+				if !ok {
+					continue
+				}
+				if sc := cl.Call.StaticCallee(); sc != nil && sc.Name() == "AppendJSON" && sc != fn {
+					return p.constantsAppended(sc, depth+1)
+				}
+				if !cl.Call.IsInvoke() || cl.Call.Method.Name() != "AppendJSON" {
 					continue
 				}
 				// receiver produced by a call returning a concrete kind
@@ -472,13 +478,67 @@ func constBytesOf(v ssa.Value) (string, bool) {
 // last transformation (or come from the parser, which only stores non-empty
 // member lists).
 func (p *Program) ruleMembersNonEmpty(c *Check) {
-	fv := p.Field("geojson", "extra", "members")
-	pk := p.Field("geojson", "parseKeys", "members")
-	if fv == nil {
-		c.Undecided("E6.members", "anchor:geojson.extra.members", "", "field not found")
-		return
+	// constructor side: run NewFeature abstractly; whatever ends up as extra.members
+	// must have been compared with "{}" (and found different) after its last transformation
+	nf := p.Func("geojson", "NewFeature")
+	if nf == nil {
+		c.Undecided("E6.members", "anchor:geojson.NewFeature", "", "constructor not found")
+	} else {
+		row := &e8row{id: "geojson.NewFeature#members", fn: nf,
+			what: "member text is stored only if, after its last transformation, it was compared with \"{}\" and differs (the writer splices its inside after a comma)",
+			spec: func(a *e8assign, n *e8names, out *e8out) string {
+				if !out.returned || len(out.ret) != 1 {
+					return "no result"
+				}
+				ex := leaf(out.ret[0], "extra")
+				if ex == nil || ex.k != kStruct {
+					return "" // no members stored
+				}
+				m := leaf(ex, "members")
+				if m == nil || m.k != kScalar {
+					return "the stored member text is not a string value"
+				}
+				l, r := m.name, `"{}"`
+				atom := l + "==" + r
+				if r < l {
+					atom = r + "==" + l
+				}
+				v, tested := a.bools[atom]
+				if !tested {
+					return "the stored member text (" + m.name + ") is never compared with \"{}\": an empty object (\"{ }\", or one whose only member was removed) would be stored and the output would contain `,,`"
+				}
+				if v {
+					return "member text equal to \"{}\" is stored"
+				}
+				return ""
+			}}
+		p.runE8(c, row)
 	}
-	n := 0
+	// parser side: the member list is only stored when at least one foreign member was collected
+	pj := p.Func("geojson", "parseJSON")
+	fd := p.Decl(pj)
+	if fd != nil {
+		ok := false
+		ast.Inspect(fd.Body, func(n ast.Node) bool {
+			is, isIf := n.(*ast.IfStmt)
+			if !isIf {
+				return true
+			}
+			cond := strings.ReplaceAll(types.ExprString(is.Cond), " ", "")
+			if strings.HasPrefix(cond, "len(") && (strings.HasSuffix(cond, ")>0") || strings.HasSuffix(cond, ")!=0")) {
+				ast.Inspect(is.Body, func(m ast.Node) bool {
+					if as, isA := m.(*ast.AssignStmt); isA && len(as.Lhs) == 1 && strings.HasSuffix(types.ExprString(as.Lhs[0]), ".members") {
+						ok = true
+					}
+					return true
+				})
+			}
+			return true
+		})
+		c.Expect(ok, "E6.members", "geojson.parseJSON#members", p.declPos(pj), "the parser stores a member list only when it collected at least one foreign member", "the parser can store an empty member list")
+	}
+	// nobody else writes extra.members
+	fv := p.Field("geojson", "extra", "members")
 	for _, fn := range p.RepoSourceFuncs() {
 		for _, b := range fn.Blocks {
 			for _, in := range b.Instrs {
@@ -494,55 +554,13 @@ func (p *Program) ruleMembersNonEmpty(c *Check) {
 				if !ok || stt.Field(fa.Field) != fv {
 					continue
 				}
-				n++
-				con := SSAName(fn) + " stores extra.members"
-				v := st.Val
-				good := false
-				why := ""
-				// (a) the parser's member list
-				if ld, ok := v.(*ssa.UnOp); ok && ld.Op == token.MUL {
-					if fa2, ok := ld.X.(*ssa.FieldAddr); ok {
-						if s2, ok := fa2.X.Type().Underlying().(*types.Pointer).Elem().Underlying().(*types.Struct); ok && s2.Field(fa2.Field) == pk {
-							good, why = true, "the parser's member list (stored only when at least one foreign member was seen)"
-						}
-					}
-				}
-				// (b) tested against "{}" after its last transformation
-				if !good {
-					for _, d := range fn.Blocks {
-						if !(d.Dominates(b)) || len(d.Instrs) == 0 {
-							continue
-						}
-						iff, ok := d.Instrs[len(d.Instrs)-1].(*ssa.If)
-						if !ok {
-							continue
-						}
-						bo, ok := iff.Cond.(*ssa.BinOp)
-						if !ok || (bo.Op != token.NEQ && bo.Op != token.EQL) {
-							continue
-						}
-						k, isK := bo.Y.(*ssa.Const)
-						if !isK || k.Value == nil || k.Value.Kind() != constant.String || constant.StringVal(k.Value) != "{}" || bo.X != v {
-							continue
-						}
-						succ := 0
-						if bo.Op == token.EQL {
-							succ = 1
-						}
-						if g := d.Succs[succ]; g == b || g.Dominates(b) {
-							good, why = true, "tested against \"{}\" after its last transformation"
-						}
-					}
-				}
-				if good {
-					c.OK("E6.members", con, p.Pos(st.Pos()), why)
-				} else {
-					c.Bad("E6.members", con, p.Pos(st.Pos()), "the member text stored here is not known to be a non-empty object: the writer splices its inside after a comma, so an empty object (\"{ }\", or one whose only member was removed) makes the output `…,,\"properties\"…`, which is not JSON")
-				}
+				name := SSAName(rootFn2(fn))
+				// NewFeature (and the helpers it calls) and the parser's parseBBoxAndExtras are the two audited sources
+				okSrc := name == "geojson.parseBBoxAndExtras" || p.onlyCalledFrom(name, []string{"geojson.NewFeature"}, 0)
+				c.Expect(okSrc, "E6.members", name+" stores extra.members", p.Pos(st.Pos()), "one of the two checked sources of member text", "member text is stored from a place whose value is not checked to be a non-empty object")
 			}
 		}
 	}
-	c.Floor("E6.members", n, 2, "stores to extra.members")
 }
 
 // ruleStride: the extra ordinates (z/m) are stored with one fixed stride:
@@ -584,6 +602,19 @@ func (p *Program) ruleStride(c *Check) {
 						loopBoundCandidate := types.ExprString(l)
 						if loopBound == "" {
 							loopBound = loopBoundCandidate
+						}
+					}
+				}
+			case *ast.RangeStmt:
+				// for _, v := range nums[2 : 2+D] { X.values = append(X.values, v) }
+				if sl, ok := ast.Unparen(x.X).(*ast.SliceExpr); ok && sl.High != nil && len(x.Body.List) == 1 {
+					if as, ok := x.Body.List[0].(*ast.AssignStmt); ok && len(as.Lhs) == 1 && strings.HasSuffix(types.ExprString(as.Lhs[0]), ".values") {
+						if call, ok := as.Rhs[0].(*ast.CallExpr); ok && types.ExprString(call.Fun) == "append" && len(call.Args) == 2 && !call.Ellipsis.IsValid() {
+							lo, hi := strings.ReplaceAll(types.ExprString(sl.Low), " ", ""), strings.ReplaceAll(types.ExprString(sl.High), " ", "")
+							valueLoops++
+							if loopBound != "" && hi != lo+"+"+loopBound && hi != loopBound+"+"+lo {
+								problems = append(problems, "the value loop ranges over "+types.ExprString(x.X)+", whose length is not the stored dimension "+loopBound)
+							}
 						}
 					}
 				}
@@ -637,35 +668,75 @@ func (p *Program) ruleStride(c *Check) {
 		return
 	}
 	good := false
-	var dimsVar string
-	ast.Inspect(fd.Body, func(n ast.Node) bool {
-		if as, ok := n.(*ast.AssignStmt); ok && len(as.Lhs) == 1 && len(as.Rhs) == 1 {
-			if call, ok := as.Rhs[0].(*ast.CallExpr); ok && types.ExprString(call.Fun) == "int" && len(call.Args) == 1 && strings.HasSuffix(types.ExprString(call.Args[0]), ".dims") {
-				dimsVar = types.ExprString(as.Lhs[0])
-			}
-		}
-		if fs, ok := n.(*ast.ForStmt); ok && dimsVar != "" {
-			if cond, ok := fs.Cond.(*ast.BinaryExpr); ok && cond.Op == token.LSS && types.ExprString(cond.Y) == dimsVar {
-				iv := types.ExprString(cond.X)
-				ast.Inspect(fs.Body, func(m ast.Node) bool {
-					if ix, ok := m.(*ast.IndexExpr); ok && strings.HasSuffix(types.ExprString(ix.X), ".values") {
-						s := strings.ReplaceAll(types.ExprString(ix.Index), " ", "")
-						idx := ""
-						for _, f := range fd.Type.Params.List {
-							for _, nm := range f.Names {
-								if b, ok := f.Type.(*ast.Ident); ok && b.Name == "int" {
-									idx = nm.Name
-								}
+	pkg := p.DeclPkg(wf)
+	env := newTermEnv(pkg, fd)
+	// single-assignment locals are substituted (x := e), except loop variables
+	var bindLets func(list []ast.Stmt)
+	bindLets = func(list []ast.Stmt) {
+		for _, st := range list {
+			switch x := st.(type) {
+			case *ast.AssignStmt:
+				if x.Tok == token.DEFINE && len(x.Lhs) == len(x.Rhs) {
+					for i, l := range x.Lhs {
+						if id, ok := l.(*ast.Ident); ok {
+							if o := pkg.TypesInfo.Defs[id]; o != nil {
+								env.bind[o] = env.term(x.Rhs[i])
 							}
 						}
-						if s == idx+"*"+dimsVar+"+"+iv || s == dimsVar+"*"+idx+"+"+iv || s == iv+"+"+idx+"*"+dimsVar {
+					}
+				}
+			case *ast.IfStmt:
+				bindLets(x.Body.List)
+				if b, ok := x.Else.(*ast.BlockStmt); ok {
+					bindLets(b.List)
+				}
+			case *ast.ForStmt:
+				bindLets(x.Body.List)
+			case *ast.BlockStmt:
+				bindLets(x.List)
+			}
+		}
+	}
+	bindLets(fd.Body.List)
+	isDims := func(t *Term) bool {
+		return t != nil && t.Kind == "conv" && len(t.Args) == 1 && t.Args[0].Kind == "field" && t.Args[0].Var != nil && t.Args[0].Var.Name() == "dims"
+	}
+	isIdx := func(t *Term) bool {
+		if t == nil || t.Kind != "param" {
+			return false
+		}
+		prm := wf.Type().(*types.Signature).Params().At(t.Idx)
+		b, ok := prm.Type().Underlying().(*types.Basic)
+		return ok && b.Info()&types.IsInteger != 0
+	}
+	ast.Inspect(fd.Body, func(n ast.Node) bool {
+		fs, ok := n.(*ast.ForStmt)
+		if !ok {
+			return true
+		}
+		cond, ok := fs.Cond.(*ast.BinaryExpr)
+		if !ok || cond.Op != token.LSS || !isDims(env.term(cond.Y)) {
+			return true
+		}
+		iv := types.ExprString(cond.X)
+		ast.Inspect(fs.Body, func(m ast.Node) bool {
+			ix, ok := m.(*ast.IndexExpr)
+			if !ok || !strings.HasSuffix(types.ExprString(ix.X), ".values") {
+				return true
+			}
+			t := env.term(ix.Index)
+			if t.Kind == "op" && t.Name == "+" && len(t.Args) == 2 {
+				for k := 0; k < 2; k++ {
+					prod, other := t.Args[k], t.Args[1-k]
+					if prod.Kind == "op" && prod.Name == "*" && len(prod.Args) == 2 && other.Kind == "opaque" && other.Name == iv {
+						if (isIdx(prod.Args[0]) && isDims(prod.Args[1])) || (isIdx(prod.Args[1]) && isDims(prod.Args[0])) {
 							good = true
 						}
 					}
-					return true
-				})
+				}
 			}
-		}
+			return true
+		})
 		return true
 	})
 	c.Expect(good, "E6.stride", "geojson.appendJSONPoint#stride", p.declPos(wf), "reads values[idx*dims+i] for i < dims with dims = int(ex.dims)", "the writer does not read the extra ordinates at idx*dims+i for i < dims with the stored dims")
